@@ -444,9 +444,69 @@ class _Split(ast.NodeTransformer):
             elif isinstance(st, ast.Return) and isinstance(st.value, ast.IfExp):
                 v = st.value
                 out.append(ast.copy_location(ast.If(test=v.test, body=[ast.copy_location(ast.Return(value=v.body), st)], orelse=[ast.copy_location(ast.Return(value=v.orelse), st)]), st))
+            elif isinstance(st, (ast.Assign, ast.Return, ast.Expr)) and st.value is not None and self._single_leading_ifexp(st.value) is not None \
+                    and (not isinstance(st, ast.Assign) or (len(st.targets) == 1 and isinstance(st.targets[0], ast.Name))):
+                # C12b: one conditional expression deeper inside the value, with nothing impure evaluated before its test: the statement is duplicated into
+                # the two branches (`x = f(a if c else b)`  ->  `if c: x = f(a) else: x = f(b)`)
+                import copy
+                ie = self._single_leading_ifexp(st.value)
+
+                def variant(branch):
+                    st2 = copy.deepcopy(st)
+                    ie2 = self._single_leading_ifexp(st2.value)
+
+                    class Rp(ast.NodeTransformer):
+                        def visit_IfExp(self, n):
+                            return getattr(n, branch) if n is ie2 else n
+                    st2.value = Rp().visit(st2.value)
+                    return st2
+                out.append(ast.copy_location(ast.If(test=ie.test, body=[variant("body")], orelse=[variant("orelse")]), st))
             else:
                 out.append(st)
         return out
+
+    @staticmethod
+    def _single_leading_ifexp(value: ast.AST):
+        ies = [x for x in ast.walk(value) if isinstance(x, ast.IfExp)]
+        if len(ies) != 1 or ies[0] is value:
+            return None
+        ie = ies[0]
+        if any(isinstance(x, (ast.Lambda, ast.ListComp, ast.SetComp, ast.DictComp, ast.GeneratorExp, ast.BoolOp, ast.NamedExpr, ast.Await, ast.Yield)) for x in ast.walk(value)):
+            return None
+        # everything evaluated before the conditional expression must be pure: walk in evaluation order until it is reached
+        done = [False]
+
+        def pure_before(x) -> bool:
+            if x is ie:
+                done[0] = True
+                return True
+            if isinstance(x, (ast.Name, ast.Constant)):
+                return True
+            if isinstance(x, ast.Attribute):
+                return pure_before(x.value)
+            if isinstance(x, ast.Call):
+                if not pure_before(x.func):
+                    return False
+                for a in list(x.args) + [k.value for k in x.keywords]:
+                    if done[0]:
+                        return True
+                    if not pure_before(a):
+                        return False
+                return done[0]  # the call itself happens after its arguments: fine only if the conditional expression was among them
+            if isinstance(x, (ast.Tuple, ast.List)):
+                for e in x.elts:
+                    if done[0]:
+                        return True
+                    if not pure_before(e):
+                        return False
+                return True
+            if isinstance(x, ast.BinOp):
+                return pure_before(x.left) and (done[0] or pure_before(x.right))
+            if isinstance(x, ast.Subscript):
+                return pure_before(x.value) and (done[0] or pure_before(x.slice))
+            return False
+        ok = pure_before(value)
+        return ie if ok and done[0] else None
 
     def generic_visit(self, node):
         for fld in ("body", "orelse", "finalbody"):
@@ -601,6 +661,66 @@ def _any_all_to_loops(tree: ast.Module) -> None:
             fn.body = conv(fn.body, False)
 
 
+def _merge_same_test_ifs(tree: ast.Module) -> None:
+    """C22: two adjacent if statements with the same pure test (names, attribute chains, constants, comparisons of those), whose branches do not assign what
+    the test reads, are one if statement with the branches concatenated"""
+    def pure(e) -> bool:
+        if isinstance(e, (ast.Name, ast.Constant)):
+            return True
+        if isinstance(e, ast.Attribute):
+            return pure(e.value)
+        if isinstance(e, ast.Compare):
+            return pure(e.left) and all(pure(c) for c in e.comparators)
+        if isinstance(e, ast.UnaryOp):
+            return pure(e.operand)
+        if isinstance(e, ast.BoolOp):
+            return all(pure(v) for v in e.values)
+        return False
+
+    def writes(body, names) -> bool:
+        for st in body:
+            for x in ast.walk(st):
+                if isinstance(x, ast.Name) and isinstance(x.ctx, (ast.Store, ast.Del)) and x.id in names:
+                    return True
+                if isinstance(x, (ast.Attribute, ast.Subscript)) and isinstance(x.ctx, (ast.Store, ast.Del)):
+                    return True
+                if isinstance(x, ast.Call):
+                    return True  # a call could change an attribute the test reads: only call-free... unless the test reads plain locals only
+        return False
+
+    def only_locals(e) -> bool:
+        return all(isinstance(x, (ast.Name, ast.Constant, ast.Compare, ast.UnaryOp, ast.BoolOp, ast.Load, ast.cmpop, ast.unaryop, ast.boolop, ast.expr_context)) for x in ast.walk(e))
+
+    def stores(body, names) -> bool:
+        return any(isinstance(x, ast.Name) and isinstance(x.ctx, (ast.Store, ast.Del)) and x.id in names for st in body for x in ast.walk(st))
+
+    def merge(body):
+        out = []
+        for st in body:
+            for fld in ("body", "orelse", "finalbody"):
+                b = getattr(st, fld, None)
+                if isinstance(b, list) and b and isinstance(b[0], ast.stmt) and not isinstance(st, ast.ClassDef):
+                    setattr(st, fld, merge(b))
+            if isinstance(st, ast.Try):
+                for h in st.handlers:
+                    h.body = merge(h.body)
+            prev = out[-1] if out else None
+            if isinstance(st, ast.If) and isinstance(prev, ast.If) and pure(st.test) and ast.dump(st.test) == ast.dump(prev.test):
+                names = {x.id for x in ast.walk(st.test) if isinstance(x, ast.Name)}
+                safe = (only_locals(st.test) and not stores(prev.body, names) and not stores(prev.orelse, names)) or \
+                       (not writes(prev.body, names) and not writes(prev.orelse, names))
+                if safe and not _leaves(prev.body, False) and not _leaves(prev.orelse, False):
+                    prev.body = prev.body + st.body
+                    prev.orelse = (prev.orelse or []) + (st.orelse or [])
+                    continue
+            out.append(st)
+        return out
+
+    for fn in ast.walk(tree):
+        if isinstance(fn, (ast.FunctionDef, ast.AsyncFunctionDef)):
+            fn.body = merge(fn.body)
+
+
 def canonicalise(tree: ast.Module, module: str = "") -> ast.Module:
     if os.environ.get("JV_CANON_C16", "0") == "1":  # off: the reference tree itself uses `all(...)` tests that rules address (is_list_str); the any / all idiom is handled in the rules
         _any_all_to_loops(tree)
@@ -615,6 +735,8 @@ def canonicalise(tree: ast.Module, module: str = "") -> ast.Module:
         tree = _Split().visit(tree)
         tree.body = _nest_guards(tree.body, False)
     tree = _Canon().visit(tree)
+    if os.environ.get("JV_CANON_C22", "1") == "1":
+        _merge_same_test_ifs(tree)
     for n in ast.walk(tree):
         if isinstance(n, (ast.FunctionDef, ast.AsyncFunctionDef)):
             _inline_return_temps(n)
